@@ -77,4 +77,19 @@ theorem C01_two_nodes_usart (pad : Pad) (es : List Event) (hwf : ∀ e ∈ es, e
     ∀ e ∈ es, decode e.kind (encode pad e) = .ok e :=
   Ross.two_nodes_usart pad es hwf nodeA hA hlog rs hrs b handlers s hs
 
+/-- **both nodes in the model (CAN):** as `C01_two_nodes_usart`, over CAN controllers whose mailboxes may be busy any
+number of times but never report a displaced frame -/
+theorem C01_two_nodes_can (pad : Pad) (es : List Event) (hwf : ∀ e ∈ es, e.WF ∧ (encode pad e).data.length ≤ 28672)
+    (nodeA : Proto) (hA : ∀ h ∈ nodeA.handlers, h.2.sends = []) (hlog : nodeA.log = [])
+    (rs : List TxResp) (hrs : ∀ r ∈ rs, r ≠ .displaced)
+    (b : UInt16) (handlers : List (Nat × Handler)) (s : List CanItem)
+    (hs : s.filter isCanFrame =
+      (canSendMany ((txOf (nodeA.sendAll (es.map (encode pad))).log).map canWire) rs).1.map .frame) :
+    let rx : Proto := ⟨b, handlers, (canPolls none s).map toRx, [], []⟩
+    callsOf rx.tickAll.log =
+      (es.filter (routed nodeA.addr)).flatMap (fun e =>
+        (recipients handlers (e.receiver == b || e.receiver == BROADCAST)).map fun h => (h.token, encode pad e)) ∧
+    ∀ e ∈ es, decode e.kind (encode pad e) = .ok e :=
+  Ross.two_nodes_can pad es hwf nodeA hA hlog rs hrs b handlers s hs
+
 end Ross.Props
